@@ -4,7 +4,8 @@ import NmVerif.Simd.Enum
 import NmVerif.Simd.Eval
 /-
   Driver handler of C12: answers the harness protocol of harness/h_c12_*.cpp with the MODEL
-  (Simd/Loop.lean, Simd/Enum.lean, Simd/Eval.lean) on integer data.  The packed intrinsics are
+  (Simd/Loop.lean, Simd/Enum.lean, Simd/Eval.lean) on integer data.  Requests reach the driver with the
+  prefix `c12.` (`mreq` of lib/props/c12.py): `reduce`, `outer`, `matmul` are also op names of other properties.  The packed intrinsics are
   instantiated lane-wise (`xs.map f`, `List.zipWith f`): that is the assumption `LaneWise*` of Props/C12.lean.
 -/
 namespace NmVerif.Driver.C12
@@ -24,10 +25,11 @@ def binaryF : String → Option (Int → Int → Int)
   | "multiply" => some (· * ·)
   | _ => none
 
-/-- `view.op.identity()` when the op has one, else 0 (eval_reduction l.235-242) -/
-def identityOf : String → Int
-  | "multiply" => 1
-  | _ => 0
+/-- `view.op.identity()` when the op has one (`meta::has_identity_v`); subtract has none -/
+def identityOf : String → Option Int
+  | "add" => some 0
+  | "multiply" => some 1
+  | _ => none
 
 def okVals (shape : String) (vals : List Int) : String :=
   s!"ok shape={shape} val={fmtInts vals}"
@@ -42,20 +44,20 @@ def arrOf (a : Args) (shapeK layoutK dataK : String) : Option (NDA Int) := do
 
 def handle : Handler := fun kind a =>
   match kind with
-  | "unary" => orBad do
+  | "c12.unary" => orBad do
       let f ← (a.get? "op").bind unaryF
       let lanes ← a.nat "lanes"
       let arr ← arrOf a "shape" "layout" "data"
-      match simdUnary lanes (·.map f) f arr (List.replicate (prod arr.shape) 0) with
+      match simdEvalUnary lanes (·.map f) f arr (List.replicate (prod arr.shape) 0) with
       | some out => pure (okVals (fmtNats arr.shape) out)
       | none => pure "ub"
-  | "binary" => orBad do
+  | "c12.binary" => orBad do
       let f ← (a.get? "op").bind binaryF
       let N ← a.nat "lanes"
       let l ← arrOf a "lshape" "llayout" "ldata"
       let r ← arrOf a "rshape" "rlayout" "rdata"
       if l.shape == r.shape then
-        match simdBinarySame N (List.zipWith f) f l r (List.replicate (prod l.shape) 0) with
+        match simdEvalBinarySame N (List.zipWith f) f l r (List.replicate (prod l.shape) 0) with
         | some out => pure (okVals (fmtNats l.shape) out)
         | none => pure "ub"
       else
@@ -63,20 +65,20 @@ def handle : Handler := fun kind a =>
         | [lr, lc], [rr, rc] =>
           let R := max lr rr
           let C := max lc rc
-          match simdBinary2d N (List.zipWith f) f l.data r.data lr lc rr rc C (List.replicate (R * C) 0) with
+          match simdEvalBinary2d N (List.zipWith f) f l r lr lc rr rc C (List.replicate (R * C) 0) with
           | some out => pure (okVals (fmtNats [R, C]) out)
           | none => pure "ub"
         | _, _ => pure "unsupported"
-  | "outer" => orBad do
+  | "c12.outer" => orBad do
       let f ← (a.get? "op").bind binaryF
       let N ← a.nat "lanes"
       let l ← arrOf a "lshape" "llayout" "ldata"
       let r ← arrOf a "rshape" "rlayout" "rdata"
       let os := l.shape ++ r.shape
-      match simdOuter N (List.zipWith f) f l.data r.data os l.shape r.shape (List.replicate (prod os) 0) with
+      match simdEvalOuter N (List.zipWith f) f l r (List.replicate (prod os) 0) with
       | some out => pure (okVals (fmtNats os) out)
       | none => pure "ub"
-  | "reduce" => orBad do
+  | "c12.reduce" => orBad do
       let opn ← a.get? "op"
       let f ← binaryF opn
       let N ← a.nat "lanes"
@@ -85,17 +87,17 @@ def handle : Handler := fun kind a =>
       let axis ← a.optInt "axis"
       match axis with
       | none =>
-        match simdReduceAll N (List.zipWith f) f 0 arr with
+        match simdEvalReduceAll N (List.zipWith f) f (identityOf opn) arr with
         | some v => pure (okVals (if keep == 0 then "num" else fmtNats (arr.shape.map (fun _ => 1))) [v])
         | none => pure "ub"
       | some ax =>
         let dim := arr.shape.length
         let axn : Nat := if ax < 0 then (dim - (-ax).toNat) else ax.toNat
         let outShape := if keep == 0 then arr.shape.eraseIdx axn else keepShape arr.shape axn
-        match simdReduceAxis N (List.zipWith f) f 0 (identityOf opn) arr ax with
+        match simdReduceAxis N (List.zipWith f) f (identityOf opn) arr ax with
         | some out => pure (okVals (fmtNats outShape) out)
         | none => pure "ub"
-  | "matmul" => orBad do
+  | "c12.matmul" => orBad do
       let N ← a.nat "lanes"
       let ls ← a.nats "lshape"
       let rs ← a.nats "rshape"
@@ -108,7 +110,7 @@ def handle : Handler := fun kind a =>
         | none => pure "ub"
       | _, _ => none
   -- pure enumerators, tuple by tuple
-  | "enum_binary2d" => orBad do
+  | "c12.enum_binary2d" => orBad do
       let N ← a.nat "lanes"
       let out ← a.nats "out"
       let l ← a.nats "lhs"
@@ -121,7 +123,7 @@ def handle : Handler := fun kind a =>
           fmtT o ++ fmtT x ++ fmtT y)
         pure s!"ok n={n} t={fmtIntLists rows}"
       | _, _, _ => none
-  | "enum_reduce" => orBad do
+  | "c12.enum_reduce" => orBad do
       let N ← a.nat "lanes"
       let out ← a.nats "out"
       let inp ← a.nats "inp"
@@ -132,7 +134,7 @@ def handle : Handler := fun kind a =>
           let (o, x) ← reductionAt kind N out inp axis i
           pure (fmtT o ++ fmtT x))
       pure s!"ok n={n} t={fmtIntLists rows}"
-  | "enum_outer" => orBad do
+  | "c12.enum_outer" => orBad do
       let N ← a.nat "lanes"
       let l ← a.nats "lhs"
       let r ← a.nats "rhs"
@@ -142,7 +144,7 @@ def handle : Handler := fun kind a =>
           let (o, x, y) := outerAt N os l r i
           fmtT o ++ fmtT x ++ fmtT y)
       pure s!"ok n={n} t={fmtIntLists rows}"
-  | "enum_matmul" => orBad do
+  | "c12.enum_matmul" => orBad do
       let N ← a.nat "lanes"
       let l ← a.nats "lhs"
       let r ← a.nats "rhs"
